@@ -44,7 +44,7 @@ ACCESSORS = ["convert", "convert_array", "manager", "manager_nm", "hamiltonian",
              "agg_hamiltonian", "rwa_skeleton", "freqaxis_to_timeaxis", "length", "transition_width",
              "diabatic_coupling", "adiabatic_coupling", "cutoff_coupling", "state_energy", "abs_rwa", "cfm_reorg",
              "hierarchy_lam", "ham_diagonalize", "corfce_values_reorg", "cfm_direct", "undiagonalize_remainder",
-             "specdens_copy"]
+             "specdens_copy", "remove_cutoff", "agg_transition", "freqaxis_copy"]
 
 CALLS = ["build1", "build2", "build_modes", "rebuild", "diagonalize", "build_raises", "mol_hamiltonian", "mol_dipole",
          "mol_sbi", "rt_stR", "rt_stR_td", "rt_stF", "rt_cRF", "rt_unknown_raises", "redfield_rates", "foerster_rates",
@@ -315,6 +315,47 @@ def _check_matrix(case, ctx):
             with qr.energy_units(u2):
                 H.recover_cutoff_coupling()
             cmp("stored-value", H._data, M)
+        elif acc == "remove_cutoff":
+            # couplings 2c (kept) and c/2 (removed for good), c given in u1
+            c = abs(v) + 1.0
+            ci = orc.to_internal(c, u1)
+            M = numpy.array([[0.0, 0.0, 0.0, 0.0], [0.0, 1.0, 2 * ci, 0.5 * ci], [0.0, 2 * ci, 1.1, -2 * ci],
+                             [0.0, 0.5 * ci, -2 * ci, 1.2]])
+            with qr.energy_units("int"):
+                H = qr.Hamiltonian(data=M.copy())
+            with qr.energy_units(u1):
+                H.remove_cutoff_coupling(c)
+            W = M.copy()
+            W[1, 3] = W[3, 1] = 0.0
+            cmp("stored-value", H._data, W)
+            with qr.energy_units(u2):
+                cmp("conversion", H.data, expect(W, "int", u2))
+        elif acc == "agg_transition":
+            # transition between two excited states of an uncoupled dimer: the difference of the two site energies
+            dv = 7.0 + abs(case["v2"])
+            with qr.energy_units(u1):
+                m1, m2 = qr.Molecule([0.0, v]), qr.Molecule([0.0, v + dv])
+                m1.set_dipole(0, 1, [1.0, 0.0, 0.0])
+                m2.set_dipole(0, 1, [0.0, 1.0, 0.0])
+                agg = qr.Aggregate(molecules=[m1, m2])
+            agg.build()
+            with qr.energy_units(u2):
+                cmp("conversion", agg.get_transition(2, 1)[0], expect(dv))
+                cmp("conversion", agg.get_transition(1, 0)[0], expect(v))
+            with qr.energy_units("nm"):
+                cmp("conversion", agg.get_transition(2, 1)[0], orc.convert(dv, u1, "nm"), what="nm")
+                cmp("conversion", agg.get_transition(2, 0)[0], orc.convert(v + dv, u1, "nm"), what="nm")
+        elif acc == "freqaxis_copy":
+            n = 8
+            st_ = 1.0 + abs(case["v2"])
+            with qr.energy_units(u1):
+                fa = qr.FrequencyAxis(v, n, st_)
+            with qr.energy_units(u2):
+                fc = fa.copy()
+            cmp("stored-value", [fc._start if hasattr(fc, "_start") else fc.start, fc._step if hasattr(fc, "_step") else fc.step],
+                [orc.to_internal(v, u1), orc.to_internal(st_, u1)])
+            with qr.energy_units(u2):
+                cmp("conversion", fc.data, expect(v + numpy.arange(n) * st_))
         elif acc == "state_energy":
             with qr.energy_units(u1):
                 m1, m2 = qr.Molecule([0.0, v]), qr.Molecule([0.0, v + 7.0])
